@@ -240,6 +240,8 @@ type c08Pack struct {
 	gitIdx   []byte
 	gitRev   []byte
 	thin     bool
+	mayRefuse bool // the spec verdict is "may" (chain deeper than the limit): a refusal is not judged
+	big      bool // thousands of entries: judged against git directly (bytes, names), no TLA+ record
 	wantKind map[string]bool // kinds PackSource allows (c08b); nil = anything
 	maxChain int
 }
@@ -271,6 +273,9 @@ func (o *c08Out) judge(p *c08Pack) error {
 			if p.thin && strings.HasPrefix(mode, "nostorage") {
 				continue // a thin pack cannot be resolved without the receiver's objects
 			}
+			if p.mayRefuse {
+				continue
+			}
 			r.Diverge("Parser|rejects-git-pack|"+p.key, fmt.Sprintf("Parser[%s] fails on a pack git index-pack accepts: %v", mode, res.err),
 				map[string]any{"scenario": p.meta, "mode": mode, "error": res.err.Error()})
 			continue
@@ -296,19 +301,35 @@ func (o *c08Out) judge(p *c08Pack) error {
 		}
 		line.Req = p.want
 		meta := map[string]any{"key": p.key, "mode": mode, "scenario": p.meta}
-		b, _ := json.Marshal(struct {
-			*packRecord
-			Meta any `json:"meta"`
-		}{&line, meta})
-		o.recs.Write(append(b, '\n'))
-		o.nrec++
+		if p.big {
+			// judged directly: the names go-git announces are the ones git index-pack lists
+			got := map[string]bool{}
+			for _, y := range res.yields {
+				got[y.id] = true
+			}
+			same := len(got) == len(p.want)
+			for _, id := range p.want {
+				same = same && got[id]
+			}
+			if !same {
+				r.Diverge("Parser-result|requested-object-missing|"+p.key, fmt.Sprintf("Parser[%s] resolves %d distinct objects, git index-pack lists %d", mode, len(got), len(p.want)), map[string]any{"scenario": p.meta, "mode": mode})
+			}
+			o.nrec++
+		} else {
+			b, _ := json.Marshal(struct {
+				*packRecord
+				Meta any `json:"meta"`
+			}{&line, meta})
+			o.recs.Write(append(b, '\n'))
+			o.nrec++
+		}
 		// idx / rev
 		if first == nil {
 			first = &res
 			tok, terr := idxToTokens(p.f, res.idx, res.rev, mustHex(rec.Trailer))
 			if terr != nil {
 				r.Diverge("idxfile.Encode|undecodable|"+p.key, fmt.Sprintf("the idx go-git wrote (Parser[%s]) cannot be decoded: %v", mode, terr), map[string]any{"scenario": p.meta})
-			} else if o.idxBytes < 48<<20 {
+			} else if o.idxBytes < 48<<20 && !p.big {
 				for _, e := range rec.Es {
 					id, _ := hex.DecodeString(e.ID)
 					tok.Es = append(tok.Es, idxEntryTok{ints(id), e.Off, fmt.Sprintf("%08x", crc32.ChecksumIEEE(p.data[e.Off:e.Off+e.Len]))})
@@ -484,7 +505,7 @@ func c08a(path string, out *c08Out, rnd *rand.Rand, gitLimit int) error {
 		if err := json.Unmarshal(line, &row); err != nil {
 			return err
 		}
-		if row.V != "accept" {
+		if row.V != "accept" && !(row.V == "may" && row.Deepl == "over") {
 			return nil
 		}
 		fmts := []objFormat{fmtSHA1}
@@ -502,7 +523,7 @@ func c08a(path string, out *c08Out, rnd *rand.Rand, gitLimit int) error {
 			if len(row.Tags) > 0 {
 				tk = strings.Join(row.Tags, "+")
 			}
-			packs = append(packs, &c08Pack{f: f, data: rd.bytes, ext: rd.external, want: want, thin: len(rd.external) > 0,
+			packs = append(packs, &c08Pack{f: f, data: rd.bytes, ext: rd.external, want: want, thin: len(rd.external) > 0, mayRefuse: row.V == "may", big: row.Extra > 0,
 				key: "spec-pack," + tk, meta: map[string]any{"source": "PackGraph", "shape": shapeKey(&row), "tags": row.Tags, "format": f.name}})
 		}
 		return nil
@@ -515,8 +536,9 @@ func c08a(path string, out *c08Out, rnd *rand.Rand, gitLimit int) error {
 	perm := rnd.Perm(len(packs))
 	byFmt := map[string][]int{}
 	n := 0
+	sort.SliceStable(perm, func(a, b int) bool { return packs[perm[a]].big && !packs[perm[b]].big }) // the depth-boundary packs always
 	for _, i := range perm {
-		if packs[i].thin || !gitcli.Available() || n >= gitLimit {
+		if packs[i].thin || !gitcli.Available() || (n >= gitLimit && !packs[i].big) {
 			continue
 		}
 		n++
